@@ -204,17 +204,22 @@ GRIDS = {"uniform": [0.0, 0.5, 1.0, 1.5], "ragged": [0.0, 0.01, 0.7, 0.75, 1.9],
          "repeated": [0.0, 0.5, 0.5, 1.2], "repeated-first": [0.3, 0.3, 0.9], "offset": [1000.0, 1000.004, 1000.3, 1000.31], "offset-decreasing": [-500.0, -500.2, -500.201]}
 
 
-def rk_step_ref(func, t0, y0, f0, h, A, B, C):
-    """one explicit RK step with the tableau (A, B, C), written independently of the library"""
+def rk_step_ref(func, t0, y0, f0, h, A, B, C, E=None):
+    """one explicit RK step with the tableau (A, B, C), written independently of the library; with E also the embedded error estimate"""
     ks = [f0]
     for s_ in range(1, len(C)):
         yi = y0 + h * sum(A[s_][j] * ks[j] for j in range(s_))
         ks.append(func(t0 + C[s_] * h, yi))
-    return y0 + h * sum(B[j] * ks[j] for j in range(len(B)))
+    ynew = y0 + h * sum(B[j] * ks[j] for j in range(len(B)))
+    if E is None:
+        return ynew
+    ks.append(func(t0 + h, ynew))
+    return ynew, h * sum(E[j] * ks[j] for j in range(len(E)))
 
 
 class TrySink(object):
-    def __init__(self, ts_internal, ref_func=None):
+    def __init__(self, ts_internal, ref_func=None, req_tol=None):
+        self.req_tol = req_tol        # (atol, rtol) the caller asked for (None: solver defaults 1e-8, 1e-5)
         self.ref_func = ref_func      # the user's right-hand side in the solver's internal time (written by the harness, not taken from the solver)
         self.ev = []
         self.tsi = ts_internal
@@ -245,8 +250,13 @@ class TrySink(object):
         func = self.ref_func if self.ref_func is not None else sol.func
         with torch.no_grad():
             f_true = func(f["t0"], f["y0"])
-            y_ref = rk_step_ref(func, f["t0"], f["y0"], f_true, f["hstep"], sol.A.tolist(), sol.B.tolist(), sol.C.tolist())
+            y_ref, err_ref = rk_step_ref(func, f["t0"], f["y0"], f_true, f["hstep"], sol.A.tolist(), sol.B.tolist(), sol.C.tolist(), sol.E.tolist())
             sc = 1.0 + float(f["y0"].abs().max())
+            # the acceptance decision against the REQUESTED tolerances, from the independently recomputed error estimate
+            atol_r, rtol_r = self.req_tol if self.req_tol is not None else (1e-8, 1e-5)
+            scale_r = atol_r + max(float(f["y0"].norm()), float(y_ref.norm())) * rtol_r
+            ratio = float(err_ref.norm()) / scale_r if scale_r > 0 else float("inf")
+            accept_ok = True if abs(ratio - 1.0) < 1e-6 else (acc == (ratio < 1.0))
             stage_ok = bool(torch.allclose(f["f0"], f_true, atol=1e-12 * sc, rtol=1e-12)) and bool(torch.allclose(f["ynew"], y_ref, atol=1e-12 * sc, rtol=1e-12)) \
                 and bool(torch.allclose(f["fnew"], func(f["tnew"], f["ynew"]), atol=1e-12 * sc, rtol=1e-12))
         if acc:
@@ -255,7 +265,7 @@ class TrySink(object):
                 self._landed = getattr(self, "_landed", 0) + 1
         slack = 4 * 2.3e-16 * max(1.0, abs(t0), abs(t1))       # t0 + (t1 - t0) may differ from t1 by a rounding error
         self.ev.append({"a": "try", "tgt": tgt, "accept": acc, "over": over, "grow": grow, "prev_rejected": bool(f["prev_rejected"]),
-                        "stage_ok": stage_ok, "landed_exact": (abs(tnew - t1) <= slack) if over else True, "factor_ok": bool(fac_ok), "not_past": tnew <= t1 + slack})
+                        "stage_ok": stage_ok, "accept_ok": bool(accept_ok), "landed_exact": (abs(tnew - t1) <= slack) if over else True, "factor_ok": bool(fac_ok), "not_past": tnew <= t1 + slack})
 
 
 def adaptive_case(tid, method, fam, gridname, atol, rtol):
@@ -265,7 +275,7 @@ def adaptive_case(tid, method, fam, gridname, atol, rtol):
     a = torch.tensor(F["a"], dtype=DT)
     tsi = [float(x) for x in (ts if ts[-1] > ts[0] else -ts)]
     sgn = 1.0 if ts[-1] > ts[0] else -1.0
-    sink = TrySink(tsi, lambda t, y: sgn * F["f"](sgn * t, y.reshape(y0.shape), a).reshape(-1))
+    sink = TrySink(tsi, lambda t, y: sgn * F["f"](sgn * t, y.reshape(y0.shape), a).reshape(-1), req_tol=(atol, rtol))
     vh.set_sink(sink)
     exc = None
     try:
@@ -424,7 +434,9 @@ def run(ctx):
     for method in ("rk23", "rk45"):
         for fam in FAMILIES:
             for gname in GRIDS:
-                for (atol, rtol) in tols + ([(1e-14, 1e-6)] if fam == "decay" and gname in ("long", "verylong", "uniform") else []):
+                # (a tolerance of exactly zero is a legal request: purely absolute / purely relative error control)
+                for (atol, rtol) in tols + ([(1e-14, 1e-6)] if fam == "decay" and gname in ("long", "verylong", "uniform") else []) \
+                        + ([(1e-9, 0.0), (0.0, 1e-7)] if gname == "uniform" else []):
                     if method == "rk23" and rtol < 1e-9:
                         continue
                     if gname.startswith("repeated") and (atol, rtol) != tols[0]:
@@ -460,7 +472,7 @@ def run(ctx):
             del t["ev"][ls[0]]                               # one requested time is never reached
             return t
     ctx.binding_selftest("Trace_AdaptiveRK.tla", "Trace_AdaptiveRK.cfg", traces, rej,
-                         [("stage not a step of the scheme", m_field("stage_ok", False)), ("past the target", m_field("not_past", False)),
+                         [("stage not a step of the scheme", m_field("stage_ok", False)), ("acceptance not by the requested tolerances", m_field("accept_ok", False)), ("past the target", m_field("not_past", False)),
                           ("landing inexact", m_field("landed_exact", False, lambda e: e["accept"] and e["over"])),
                           ("rejected step grows", m_field("grow", "up", lambda e: not e["accept"])), ("landing missing", m_drop_landing)])
     bytid = {t["tid"]: t for t in traces}
@@ -492,7 +504,9 @@ def run(ctx):
             except Exception as e:
                 ctx.violation("ivp/batched-state/%s" % method, "solve_ivp(%s) on a (2, 3) state raised %s: %s" % (method, type(e).__name__, str(e)[:120]), {"method": method})
     from vlib import resulthistory
-    nhist += resulthistory.replay(ctx, ["solve_ivp:rk4", "solve_ivp:rk45", "solve_ivp:rk23"], "ivp")
+    nhist += resulthistory.replay(ctx, ["solve_ivp:rk4", "solve_ivp:rk45", "solve_ivp:rk23", "solve_ivp:alias", "solve_ivp:alias45"], "ivp")
+    from vlib import layoutinv
+    nhist += layoutinv.replay(ctx, ["solve_ivp:rk4", "solve_ivp:rk45", "solve_ivp:rk23"], "ivp")
     ctx.samples.append({"cfg": traces[0]["cfg"], "events": traces[0]["ev"][:6]})
     ctx.replayed = nfix + nhist
     ctx.notes.update(fixed_exact_cases=nfix, adaptive_runs=len(traces), try_events=sum(len(t_["ev"]) for t_ in traces), fixed_numeric_cases=nnum)
